@@ -13,6 +13,8 @@ import NaijaVerif.Lemmas.AnalysisLiveModel
 import NaijaVerif.Lemmas.AnalysisRefineLawful
 import NaijaVerif.Lemmas.AnalysisRefineTop
 import NaijaVerif.Lemmas.EvalToy
+import NaijaVerif.Lemmas.PipelinePrune
+import NaijaVerif.Lemmas.ResolveStructLok
 /-
 C03 — analysis-driven pruning never changes what a program does.
 
@@ -73,8 +75,28 @@ Proved here, for every program, every primitive semantics and every amount of fu
   every plan contained in the model's plan the pruned run of `Eval` (with enough fuel) prints the same
   values and ends the same way.  (By `Eval.run_mono` that is THE outcome of the pruned run for all larger
   fuel.)  `c03_termination_transfer`: a run of `Eval` that ends is a run of the fragment that ends.
-Still evaluated per program rather than proved: the table-consistency conjuncts of `structOkB`
-(`storeTabB`: true by construction of the model's tables for distinct, pre-order statement ids; a
+* **`c03_pipeline`** — the same for the SHIPPED PIPELINE (`Model/Pipeline.lean`: lex → parse → resolve → limit
+  preflight → analyses → run): for every source text and all caps, if `Pipeline.frontEnd` accepts the text
+  and `PipelineSide` (= `okBlock (orcOf …)` ∧ `structOkB`, of the front end's program and facts) holds, the
+  run with the plan the front end hands over has the observation of the run without a plan, for all
+  sufficiently large fuel; the panic exclusion is discharged by C06 (`pipeline_plain_no_panic`).
+* **The side conditions as theorems about the resolver model** (`Lemmas/ResolveStruct*.lean`), for every
+  accepted output `(resolve q).root`, `(resolve q).facts` (`rdiags = []`):
+  - the whole bridge condition `okBlock (orcOf numOk facts) root` — `resolve_okBlock` (annotations from
+    `resolve_wellScoped` / `resolve_num` / `resolve_ok`; scope tags of blocks and parameter lists, distinct
+    function ids per block: the scope walk `Lemmas/ResolveStructScopeWalk.lean`);
+  - of `structOkB` (`structOkB_split`, `structRestB_split`): distinct statement ids (they are the pre-order
+    positions `0 … n-1`), ALL of `globalOkB` (`resolve_globalOk`: `brClosed`, `usedOkB` — for every program and
+    all facts —, `sumOkB`, `slOkB`, `scOwnB`), and of the statement walk `rootOkB` the owner / callee atoms
+    (`resolve_ownWalk`, from `ownOkB`).
+  What remains is `structRest2B`: the top-level scope condition and the walk over the other atoms of `lokB`
+  (variable part of `efitList`, `writesOkB`, `otherB`, `blockOkB`, the store rule incl. `storeTabB`, loop
+  fixpoints, `pureFnB`).  `c03_pipeline_rest` states C03 for the shipped pipeline under `structRest2B` alone.
+  `structRest_fails_on_accepted`: as it stands `structRest2B` is NOT true of every accepted program (a store
+  whose initialiser calls a mutating method records `writes = [receiver, target]`, the store rule asks for
+  `[target]`); the conjunct stays a hypothesis.
+Still evaluated per program rather than proved: `structRest2B` (in particular the table-consistency conjuncts
+`storeTabB`: true by construction of the model's tables for distinct, pre-order statement ids; a
 proof needs the position arguments "`i ∈ unusedAsg` refers to THIS occurrence of statement `i`").
 Also open: T6 (verdicts) beyond never-read variables.
 -/
@@ -523,6 +545,185 @@ theorem c03_eval {N : Type} [NumOps N] (cfg : Eval.RunCfg) (numOk : Bytes → Bo
     (by rw [fragObs_congr hc, hn]; exact fun h => by cases h)
   exact ⟨f', by rw [show (some (toEvalPlan plan)) = (some plan).map toEvalPlan from rfl, hf', fragObs_congr hc, hn]⟩
 
+/-! ### The shipped pipeline -/
+
+section pipeline
+open NaijaVerif.Props.C06Accepted (NumLitsParse parsed)
+open NaijaVerif.Bridge (isNumLexeme)
+open NaijaVerif.PipelinePrune
+
+/-- The side conditions of `c03_eval` on what the front end produced (`a.root`, `a.facts` — the plan
+does not occur): the program is annotated and its scope tags are the facts' (`okBlock (orcOf …)`), and
+the facts and the model's tables are consistent with the program (`structOkB`).  Decidable. -/
+def PipelineSide (a : Pipeline.Accepted) : Prop :=
+  okBlock (orcOf isNumLexeme a.facts) a.root = true ∧ structOkB a.root a.facts = true
+
+instance (a : Pipeline.Accepted) : Decidable (PipelineSide a) := by unfold PipelineSide; exact inferInstance
+
+/-- The plain run of an accepted text never panics (C06 for the run without a plan). -/
+theorem pipeline_plain_no_panic {N : Type} [NumOps N] (hnum : NumLitsParse N isNumLexeme) (caps : Limits.Caps)
+    (cfg : Eval.RunCfg) (hl : cfg.lookup = .dynamic) (hp : cfg.panics = false) (src : Bytes) (a : Pipeline.Accepted)
+    (ha : Pipeline.frontEnd caps src = .ok a) (f : Nat) :
+    (Eval.run (N := N) { cfg with plan := none } f a.root).isPanic = false := by
+  obtain ⟨hroot, hacc⟩ := Props.C06Accepted.frontEnd_ok ha
+  rw [hroot]
+  exact Props.C06Accepted.c06_source hnum { cfg with plan := none } hp (Or.inl hl) src hacc
+    (Props.C06Accepted.planReach_none _ rfl _) f
+
+/-- **C03 for the shipped pipeline** (`Pipeline.frontEnd`: lex → parse → resolve → limit preflight →
+analyses; then `Eval.run` with the plan it hands over).  Whatever the source text and the caps: if the
+front end accepts the text and the side conditions hold of its result (`PipelineSide`: conditions on
+the annotated program and the facts, no plan), and the run WITHOUT a plan ends — within its fuel — with
+the observation `o` (printed values; normal ending or a runtime error other than `Undefined variable`),
+then the run WITH the plan the front end hands over ends with the same observation `o`, for all
+sufficiently large fuel.  For the current code (`lookup = dynamic`, `panics = false`), no input, and
+every number type whose `ofLit` accepts the scanner's lexemes (`NumLitsParse`) — with that, a panic of
+the plain run is excluded by C06 (`pipeline_plain_no_panic`) instead of by hypothesis. -/
+theorem c03_pipeline {N : Type} [NumOps N] (hnum : NumLitsParse N isNumLexeme) (caps : Limits.Caps)
+    (cfg : Eval.RunCfg) (hl : cfg.lookup = .dynamic) (hp : cfg.panics = false) (hin : cfg.input = [])
+    (src : Bytes) (a : Pipeline.Accepted) (ha : Pipeline.frontEnd caps src = .ok a) (hside : PipelineSide a)
+    (f : Nat) (o : List (Eval.Value N) × Nat)
+    (hrun : evalObs (Eval.run (N := N) { cfg with plan := none } f a.root) = some o)
+    (hund : o.2 ≠ 10 + rtCode .undefinedVariable) :
+    ∃ f', ∀ g, f' ≤ g → evalObs (Eval.run (N := N) { cfg with plan := a.plan } g a.root) = some o := by
+  obtain ⟨_, _, _, hcase⟩ := frontEnd_shape ha
+  rcases hcase with ⟨_, hplan, _⟩ | ⟨_, hplan, _⟩
+  · -- below the limits: the plan of the analysis model
+    have hpan : o.2 ≠ 2 := by
+      intro h2
+      have hnp := pipeline_plain_no_panic hnum caps cfg hl hp src a ha f
+      generalize Eval.run (N := N) { cfg with plan := none } f a.root = r at hrun hnp
+      cases r with
+      | ok out => simp only [evalObs, Option.some.injEq] at hrun; rw [← hrun] at h2; cases h2
+      | rt k sp out =>
+        simp only [evalObs, Option.some.injEq] at hrun; rw [← hrun] at h2
+        simp only at h2; omega
+      | panic site out => cases hnp
+      | fuelOut => cases hrun
+    obtain ⟨f', hf'⟩ := c03_eval (N := N) cfg isNumLexeme a.root a.facts (planModel a.root a.facts) f hl hp hin
+      (fun lex h => Option.isSome_iff_exists.mp (hnum lex h)) hside.1 hside.2
+      (by simp [Plan.sub, subset]) o hrun hund hpan
+    refine ⟨f', fun g hg => ?_⟩
+    rw [hplan]
+    exact evalObs_mono _ hg _ hf'
+  · -- above a limit: no plan, the same run
+    refine ⟨f, fun g hg => ?_⟩
+    rw [hplan]
+    exact evalObs_mono _ hg _ hrun
+
+end pipeline
+
+/-! ### The side conditions are theorems about the resolver model (as far as they are true) -/
+
+section resolver
+open NaijaVerif.Props.C06Accepted (NumLitsParse parsed)
+open NaijaVerif.Bridge (isNumLexeme)
+open NaijaVerif.PipelinePrune
+open NaijaVerif.ResolveStruct (structProvedB structRestB ownWalkB structRest2B)
+
+/-- **The bridge condition holds of every accepted output of the resolver model** whose input has number
+lexemes accepted by `numOk` (the scanner's guarantee): every reference, target, parameter, statement and
+user call is annotated (`resolve_wellScoped`, `resolve_num`, `resolve_ok`), the scope tag of every block
+and parameter list is the declaring scope of exactly its own declarations, and the definitions of a
+block carry distinct ids (`Lemmas/ResolveStructScopeWalk.lean`). -/
+theorem resolve_okBlock (numOk : Bytes → Bool) (q : Block) (hsrc : Bridge.srcBlock ⟨[], numOk, false, none⟩ q = true)
+    (h : (Resolve.resolve q).rdiags = []) :
+    okBlock (orcOf numOk (Resolve.resolve q).facts) (Resolve.resolve q).root = true :=
+  ResolveStruct.resolveWith_okBlock numOk true q hsrc h
+
+/-- `structOkB` is the conjunction of a part proved of the resolver model (`structProvedB`: distinct
+statement ids and ALL of `globalOkB` — `brClosed`, `usedOkB`, `sumOkB`, `slOkB`, `scOwnB`) and a remaining
+part (`structRestB`: the statement-by-statement conditions `rootOkB` for the empty plan). -/
+theorem structOkB_split (root : Block) (facts : Facts) :
+    structOkB root facts = (structProvedB root facts && structRestB root facts) :=
+  ResolveStruct.structOkB_split root facts
+
+/-- **The proved part**, for every accepted output of the resolver model. -/
+theorem resolve_structProved (q : Block) (h : (Resolve.resolve q).rdiags = []) :
+    structProvedB (Resolve.resolve q).root (Resolve.resolve q).facts = true :=
+  ResolveStruct.resolveWith_structProved true q h
+
+/-- **`globalOkB`**, for every accepted output of the resolver model. -/
+theorem resolve_globalOk (q : Block) (h : (Resolve.resolve q).rdiags = []) :
+    globalOkB (Resolve.resolve q).root (Resolve.resolve q).facts = true :=
+  ResolveStruct.resolveWith_globalOk true q h
+
+/-- `usedOkB` needs no resolver: it holds of every program and all facts. -/
+theorem usedOk_always (root : Block) (facts : Facts) : usedOkB (mkCtx root facts) = true :=
+  ResolveStruct.usedOkB_holds _
+
+/-- **`structOkB` of an accepted output of the resolver model** from the remaining conjuncts alone. -/
+theorem resolve_structOk (q : Block) (h : (Resolve.resolve q).rdiags = [])
+    (hrest : structRestB (Resolve.resolve q).root (Resolve.resolve q).facts = true) :
+    structOkB (Resolve.resolve q).root (Resolve.resolve q).facts = true :=
+  ResolveStruct.resolveWith_structOk true q h hrest
+
+/-- The remaining part, split once more: the statement walk `lokListB` with its atomic conditions as a
+parameter (`lokG`, `Lemmas/ResolveStructLok.lean`) is the conjunction of the walk over the atoms that
+`ownOkB` proves (`ownWalkB`: the facts of every statement name its function and cover the user calls of
+its own expressions) and the walk over the remaining atoms together with the top-level scope condition
+(`structRest2B`). -/
+theorem structRestB_split (root : Block) (facts : Facts) :
+    structRestB root facts = (ownWalkB root facts && structRest2B root facts) :=
+  ResolveStruct.structRestB_split root facts
+
+/-- **The walk over the proved atoms** succeeds on every output of the resolver model. -/
+theorem resolve_ownWalk (q : Block) : ownWalkB (Resolve.resolve q).root (Resolve.resolve q).facts = true :=
+  ResolveStruct.resolveWith_ownWalk true q
+
+/-- **`structOkB` of an accepted output of the resolver model** from `structRest2B` alone. -/
+theorem resolve_structOk2 (q : Block) (h : (Resolve.resolve q).rdiags = [])
+    (hrest : structRest2B (Resolve.resolve q).root (Resolve.resolve q).facts = true) :
+    structOkB (Resolve.resolve q).root (Resolve.resolve q).facts = true :=
+  ResolveStruct.resolveWith_structOk2 true q h hrest
+
+/-- A store whose initialiser calls a mutating method (`make b get a.pop()`): the resolver records the
+receiver `a` as written BEFORE the target `b`, so `writes` of the statement is `[a, b]`. -/
+def receiverWriteText : Bytes := b!"make a get [1]\nmake b get a.pop()\nshout(b)\nshout(a)"
+
+/-- **The remaining part is not a theorem about the resolver model as it stands**: `receiverWriteText` is
+accepted, but `structRestB` and `structRest2B` (hence `structOkB`) are false of the resolver's output — the rule for a store
+to an own variable (`ownStoreB`) asks for `writes = [target]`.  Neither the pruning nor the verdicts are
+wrong on such programs: the initialiser is `Impure`, so the store is never removed, and the
+unused-assignment verdict that `liveness.rs` attaches to `op.writes.first()` (here the receiver `a`) says
+something true of `a`.  The hypothesis is merely stronger than what the resolver delivers; the conjunct
+stays in `structRest2B`. -/
+theorem structRest_fails_on_accepted :
+    (Resolve.resolve (parsed receiverWriteText)).rdiags = [] ∧
+    structRestB (Resolve.resolve (parsed receiverWriteText)).root (Resolve.resolve (parsed receiverWriteText)).facts = false ∧
+    structRest2B (Resolve.resolve (parsed receiverWriteText)).root (Resolve.resolve (parsed receiverWriteText)).facts = false ∧
+    ((Resolve.resolve (parsed receiverWriteText)).facts.stmtEffects.map (·.writes))[1]? = some [0, 1] := by
+  decide +kernel
+
+/-- The side conditions of `c03_pipeline`, from the remaining part `structRest2B` alone: the bridge condition and
+the proved part of `structOkB` hold of whatever `Pipeline.frontEnd` accepts. -/
+theorem pipelineSide_of_rest {caps : Limits.Caps} {src : Bytes} {a : Pipeline.Accepted}
+    (ha : Pipeline.frontEnd caps src = .ok a) (hrest : structRest2B a.root a.facts = true) : PipelineSide a := by
+  obtain ⟨hroot, hfacts, hrd, _⟩ := frontEnd_shape ha
+  rw [hroot, hfacts] at hrest
+  unfold PipelineSide
+  rw [hroot, hfacts]
+  exact ⟨resolve_okBlock isNumLexeme (parsed src)
+      (Bridge.parse_source_ok ⟨[], isNumLexeme, false, none⟩ Bridge.isNumLexeme_zero _ (Bridge.lex_numbers src)) hrd,
+    resolve_structOk2 (parsed src) hrd hrest⟩
+
+/-- **C03 for the shipped pipeline, with the proved side conditions discharged**: as `c03_pipeline`, but
+the only hypothesis about the front end's result that is left is `structRest2B a.root a.facts` — the part
+of `structOkB` not proved of the resolver model (of `rootOkB` for the empty plan: the top-level scope
+condition and the walk over the atoms other than owner / callees).  The bridge condition
+`okBlock (orcOf …)`, distinct statement ids, `globalOkB` and the owner / callee atoms are theorems. -/
+theorem c03_pipeline_rest {N : Type} [NumOps N] (hnum : NumLitsParse N isNumLexeme) (caps : Limits.Caps)
+    (cfg : Eval.RunCfg) (hl : cfg.lookup = .dynamic) (hp : cfg.panics = false) (hin : cfg.input = [])
+    (src : Bytes) (a : Pipeline.Accepted) (ha : Pipeline.frontEnd caps src = .ok a)
+    (hrest : structRest2B a.root a.facts = true)
+    (f : Nat) (o : List (Eval.Value N) × Nat)
+    (hrun : evalObs (Eval.run (N := N) { cfg with plan := none } f a.root) = some o)
+    (hund : o.2 ≠ 10 + rtCode .undefinedVariable) :
+    ∃ f', ∀ g, f' ≤ g → evalObs (Eval.run (N := N) { cfg with plan := a.plan } g a.root) = some o :=
+  c03_pipeline hnum caps cfg hl hp hin src a ha (pipelineSide_of_rest ha hrest) f o hrun hund
+
+end resolver
+
 /-! ### Non-vacuity -/
 
 /-- `return` followed by a statement: the second statement is unreachable, ids are distinct, and
@@ -718,5 +919,49 @@ theorem toyPrims_lawful : Lawful toyPrims (fun v t => v = some t) where
   cond := by
     intro v hv
     rcases hv with rfl | rfl <;> exact ⟨true, rfl⟩
+
+/-! ### Non-vacuity of `c03_pipeline` -/
+
+section pipeline_examples
+open NaijaVerif.Props.C06Accepted (parsed trivialNum ranSummary)
+open NaijaVerif.PipelinePrune
+
+/-- The TEXT `make x get 1  x get 2  x get 3  shout(x)` through `Pipeline.frontEnd`: accepted, the plan
+handed to the runtime removes statement 1, and `PipelineSide` holds of the result. -/
+example :
+    (Pipeline.frontEnd roomyCaps prunedText).toOption.map (fun a => (a.plan.map (·.stmts), decide (PipelineSide a))) =
+      some (some [1], true) := by
+  decide +kernel
+
+/-- An instance of `c03_pipeline` on that text (numbers: `trivialNum`, for which `NumLitsParse` holds):
+all hypotheses are discharged. -/
+example : ∃ a o f', Pipeline.frontEnd roomyCaps prunedText = .ok a ∧ a.plan.map (·.stmts) = some [1] ∧ ∀ g, f' ≤ g →
+    evalObs (@Eval.run Unit trivialNum { Eval.Toy.cfg with plan := a.plan } g a.root) = some o := by
+  cases h : Pipeline.frontEnd roomyCaps prunedText with
+  | error e =>
+    have : (Pipeline.frontEnd roomyCaps prunedText).toOption.isSome = true := by decide +kernel
+    rw [h] at this; cases this
+  | ok a =>
+    have hside : PipelineSide a ∧ a.plan.map (·.stmts) = some [1] := by
+      have : (Pipeline.frontEnd roomyCaps prunedText).toOption.all
+          (fun a => decide (PipelineSide a) && decide (a.plan.map (·.stmts) = some [1])) = true := by
+        decide +kernel
+      rw [h] at this; simpa [Except.toOption] using this
+    have hroot := (frontEnd_shape h).1
+    obtain ⟨o, ho, ho2⟩ : ∃ o, evalObs (@Eval.run Unit trivialNum { Eval.Toy.cfg with plan := none } 30 a.root) = some o ∧
+        o.2 = 0 := by
+      rw [hroot]
+      exact evalObs_endsOk (by decide +kernel)
+    obtain ⟨f', hf'⟩ := @c03_pipeline Unit trivialNum (fun _ _ => rfl) roomyCaps Eval.Toy.cfg rfl rfl rfl prunedText a h
+      hside.1 30 o ho (by rw [ho2]; decide)
+    exact ⟨a, o, f', rfl, hside.2, hf'⟩
+
+/-- … and of `c03_pipeline_rest`: the remaining hypothesis `structRest2B` holds of that text. -/
+example :
+    (Pipeline.frontEnd roomyCaps prunedText).toOption.map
+      (fun a => ResolveStruct.structRest2B a.root a.facts) = some true := by
+  decide +kernel
+
+end pipeline_examples
 
 end NaijaVerif.C03
